@@ -32,6 +32,8 @@ try:
         if os.path.isdir(os.path.join(wt, d)) and d not in (".", ""):
             target = d
             break
+    if os.environ.get("CONFIRM_TARGET"):
+        target = os.environ["CONFIRM_TARGET"]
     if target is None:
         mm = re.search(r"go test[^\n]*?(\./[\w/]+)/?\s*$", hdr, re.M)
         if mm:
@@ -44,7 +46,8 @@ try:
         moddir = os.path.join(wt, "gcetcbendorsement")
         rel = target[len("gcetcbendorsement"):].lstrip("/") or "."
     run = re.search(r"-run\s+'?\"?([\w|^$]+)", hdr)
-    runpat = run.group(1) if run else "Test"
+    runpat = os.environ.get("CONFIRM_RUN") or (run.group(1) if run else "Test")
+    meta["demo_target"], meta["demo_run"] = target, runpat
     dst = os.path.join(wt, target, "zz_seed_demo_test.go")
     def demo_run():
         shutil.copy(os.path.join(sd, "demo_test.go"), dst)
@@ -52,7 +55,7 @@ try:
         os.remove(dst)
         return rc, out
     rc0, out0 = demo_run()
-    meta["ran"].append({"cmd": "demo on unpatched tree", "rc": rc0})
+    meta["ran"].append({"cmd": "demo on unpatched tree", "rc": rc0, "tail": out0[-300:] if rc0 else ""})
     rc, out = sh("git apply %s" % os.path.join(sd, "patch.diff"), cwd=wt)
     meta["ran"].append({"cmd": "git apply patch.diff", "rc": rc})
     assert rc == 0, out
